@@ -61,9 +61,21 @@ class Faults(chan.ChannelScenario):
         made = []
         orig_cls = srv.channel_class
 
+        accepted = []
+
         def channel_class(*a, **kw):
             ch = orig_cls(*a, **kw)
             made.append(ch)
+            orig_ws = ch.write_soon
+
+            def write_soon(data):
+                dead = ch.socket is None
+                r = orig_ws(data)
+                if dead and len(data):
+                    accepted.append(len(data))
+                return r
+
+            ch.write_soon = write_soon
             return ch
 
         srv.channel_class = channel_class
@@ -75,7 +87,7 @@ class Faults(chan.ChannelScenario):
             return (tuple(parts), len(disp.queue), len(sockA.out), len(sockB.out), sockA.closed, sockB.closed, listener.closed, len(sockA.inq), sockA.reset)
 
         S.fp = fp
-        return dict(srv=srv, map=m, listener=listener, disp=disp, sockA=sockA, sockB=sockB, chB=chB, refB=refB, app=app, made=made)
+        return dict(srv=srv, map=m, listener=listener, disp=disp, sockA=sockA, sockB=sockB, chB=chB, refB=refB, app=app, made=made, accepted=accepted)
 
     def oracle(self, ctx, S, W, reason):
         v = []
@@ -120,9 +132,8 @@ class Faults(chan.ChannelScenario):
         if sockA.closed:
             if sockA.fd in m or sockA.fd in srv.active_channels:
                 v.append(("closed-but-registered", "connection A closed but still in the socket map / active_channels"))
-        for ch in ctx["made"]:
-            if ch.socket is None and ch.total_outbufs_len > 0:
-                v.append(("output-accepted-after-teardown", f"{ch.total_outbufs_len} bytes were accepted into the buffers of a torn-down connection (never released)"))
+        if ctx["accepted"]:
+            v.append(("output-accepted-after-teardown", f"write_soon() accepted {sum(ctx['accepted'])} bytes of application output for a connection that was already torn down (no ClientDisconnected)"))
         if ctx["app"].active != 0 and not any(t.state == "blocked" and t.bkind == "cv" for t in S.threads if t.name.startswith("waitress-")):
             pass
         for lvl, msg in W.log:
